@@ -124,6 +124,12 @@ def gen_cases(ctx, prop):
         decl = list(range(n))
         rng.shuffle(decl)
         add(mk_case(deps, kinds, decl, max_paths=6, kind="rand"))
+    # wide: more co-eligible stages than any plausible limit on parallelism (cores, a semaphore): all must be in flight together
+    wide = max(40, 2 * vlib.NCPU + 1)
+    add(mk_case({a: [] for a in range(wide)}, ["ok"] * wide, list(range(wide)), max_paths=1, kind="wide"))
+    wdeps = {a: ([] if a < wide // 2 else [a - wide // 2]) for a in range(wide)}
+    wdeps[wide] = list(range(wide // 2, wide))
+    add(mk_case(wdeps, ["ok"] * (wide + 1), list(range(wide + 1)), max_paths=1, kind="wide"))
     # stress: free-running Runner and a busy-polling loop, so that the loop reads statuses while stage goroutines are between
     # their two status writes (allowed failure: Error, then Done); many allowed-failure stages, each with a dependant
     for _ in range(400 if thorough else 120):
